@@ -47,6 +47,8 @@ type emu struct {
 	toks    []tok
 	logTok  bool
 	nDSR    int
+	keepRaw bool
+	raw     []byte
 }
 
 func newEmu(w, h int, m *os.File) *emu {
@@ -66,6 +68,7 @@ func (e *emu) reset(w, h int) {
 	e.r, e.c, e.wrapPen = 0, 0, false
 	e.cstyle, e.hidden, e.styled, e.scroll = "", false, false, 0
 	e.hold, e.heldQ, e.toks, e.nDSR = false, nil, nil, 0
+	e.raw = nil
 }
 
 // resize keeps the content (no reflow), clips or pads.
@@ -113,6 +116,9 @@ func (e *emu) run() {
 		n, err := e.master.Read(buf)
 		if n > 0 {
 			e.mu.Lock()
+			if e.keepRaw {
+				e.raw = append(e.raw, buf[:n]...)
+			}
 			e.pend = append(e.pend, buf[:n]...)
 			e.process()
 			e.mu.Unlock()
@@ -136,6 +142,14 @@ func (e *emu) tok(t tok) {
 		}
 		e.toks = append(e.toks, t)
 	}
+}
+
+func (e *emu) takeRaw() []byte {
+	e.mu.Lock()
+	defer e.mu.Unlock()
+	r := e.raw
+	e.raw = nil
+	return r
 }
 
 func (e *emu) takeToks() []tok {
